@@ -7,7 +7,7 @@ failing-input search).  Each generated definition is the per-element function of
 body, generic over the scalar class `Gwcs.ANum` (instances: Float for execution, ℝ in proofs).
 
 Supported: assignments (names / tuple unpacking), augmented assignments (rebinding), + - * / and
-`** <int literal>`, unary minus, the listed np.* calls, `PARAM[0]` for declared parameter triples,
+`** <int literal>`, unary minus, the listed np.* calls, `np.broadcast_arrays` (identity per element), `PARAM[0]` for declared parameter triples,
 calls to other whitelisted evaluates, `return` of an expression or tuple.  `if isinstance(.., Quantity)`
 takes the plain-number (else) branch; an `if` whose body only raises is skipped.  Both are listed in
 the report so nothing is dropped silently.
@@ -83,6 +83,11 @@ class Tr:
             f = e.func
             if isinstance(f, ast.Attribute) and isinstance(f.value, ast.Name) and f.value.id == "np" and f.attr in NPFUN and len(e.args) == 1 and not e.keywords:
                 return "(%s %s)" % (NPFUN[f.attr], self.expr(e.args[0]))
+            if (isinstance(f, ast.Attribute) and isinstance(f.value, ast.Name) and f.value.id == "np" and f.attr == "broadcast_arrays"
+                    and all(k.arg == "subok" for k in e.keywords)):
+                # shapes only: per element it hands its arguments back
+                self.notes.append("%s:%d np.broadcast_arrays is the identity per element" % (self.fname, e.lineno))
+                return "(%s)" % ", ".join(self.expr(a) for a in e.args)
             if isinstance(f, ast.Attribute) and f.attr == "evaluate" and isinstance(f.value, ast.Name) and f.value.id in CALLS and not e.keywords:
                 return "(%s %s)" % (CALLS[f.value.id], " ".join(self.expr(a) for a in e.args))
             self.bad(e, "call %s" % ast.unparse(f))
